@@ -65,7 +65,7 @@ Pending(i) == st[i] = "pending"
 (* OBSERVER *)
 OCall(i) ==
   /\ st[i] = "idle" /\ st' = [st EXCEPT ![i] = "pending"]
-  /\ inflight' = [k \in 1..Len(inflight) |-> IF inflight[k].id = i THEN [id |-> i, live |-> TRUE] ELSE inflight[k]]
+  /\ inflight' = [k \in 1..Len(inflight) |-> IF inflight[k].id = i THEN [inflight[k] EXCEPT !.live = TRUE] ELSE inflight[k]]
   /\ UNCHANGED <<res, cancelled, wire, outClosed, credit, oks, unh, viol, hasUnh>>
 OWire(i) ==
   /\ st[i] # "idle" /\ wire' = wire \cup {i}
@@ -76,8 +76,9 @@ OCancel(i) ==
 OCloseOut ==
   /\ outClosed' = TRUE
   /\ UNCHANGED <<st, res, cancelled, wire, inflight, credit, oks, unh, viol, hasUnh>>
+Waiting(id) == id \in Reqs /\ Pending(id) /\ id \in wire /\ id \notin cancelled /\ credit[id] = 0
 OPeer(id) ==
-  /\ inflight' = Append(inflight, [id |-> id, live |-> id \in Reqs /\ st[id] = "pending"])
+  /\ inflight' = Append(inflight, [id |-> id, live |-> id \in Reqs /\ st[id] = "pending", due |-> Waiting(id)])
   /\ UNCHANGED <<st, res, cancelled, wire, outClosed, credit, oks, unh, viol, hasUnh>>
 OUnhandled(id) ==
   /\ hasUnh                       \* there is a callback to report it to
@@ -86,17 +87,23 @@ OUnhandled(id) ==
 (* the serve loop has finished with the oldest receipt: it was reported unhandled (once, with *)
 (* its id), or taken for the call with that id (credit), or - only a handler without an       *)
 (* Unhandled callback may do that - dropped silently (taken = FALSE, nothing reported)        *)
+(* a receipt that was SENT while its call was waiting - the message on the wire, its context not cancelled, no   *)
+(* receipt taken for it yet (entry.due) - and whose call is still waiting like that when the serve loop has      *)
+(* finished with it, is the call's reply: it may neither be reported unhandled nor be dropped                    *)
+Owed(e) == e.due /\ e.id \notin cancelled /\ credit[e.id] = 0
 OHandled(id, taken) ==
   /\ inflight # <<>> /\ Head(inflight).id = id
   /\ inflight' = Tail(inflight)
   /\ IF unh # <<>>
      THEN /\ credit' = credit
           /\ viol' = viol \cup (IF unh = <<id>> THEN {} ELSE {"C06_UnhandledOnce"})
+                          \cup (IF Owed(Head(inflight)) THEN {"C06_WaitingCallGetsReceipt"} ELSE {})
      ELSE IF taken
      THEN /\ credit' = [credit EXCEPT ![id] = @ + 1]
           /\ viol' = viol \cup (IF Head(inflight).live /\ credit[id] = 0 THEN {} ELSE {"C06_UnclaimedToHandler"})
      ELSE /\ credit' = credit
           /\ viol' = viol \cup (IF hasUnh THEN {"C06_UnclaimedToHandler"} ELSE {})
+                          \cup (IF Owed(Head(inflight)) THEN {"C06_WaitingCallGetsReceipt"} ELSE {})
   /\ unh' = <<>>
   /\ UNCHANGED <<st, res, cancelled, wire, outClosed, oks, hasUnh>>
 
@@ -127,15 +134,22 @@ Quiescent == (\A i \in Reqs : ~Pending(i)) /\ inflight = <<>>
 (* MECHANISM *)
 Call(i) ==
   /\ OCall(i) /\ nenv' = nenv + 1
-  /\ pc[i] = "idle" /\ pc' = [pc EXCEPT ![i] = "reg"] /\ table' = table \cup {i}
+  /\ pc[i] = "idle" /\ pc' = [pc EXCEPT ![i] = "reg"]
+  /\ table' = IF "RegisterAfterSend" \in Dev THEN table ELSE table \cup {i}
   /\ UNCHANGED <<tok, closed, hpc>>
 Cancel(i) == st[i] # "idle" /\ i \notin cancelled /\ OCancel(i) /\ nenv' = nenv + 1 /\ UNCHANGED mvars
 CloseOut == ~outClosed /\ OCloseOut /\ nenv' = nenv + 1 /\ UNCHANGED mvars
 Peer(id) == Len(inflight) < 2 /\ OPeer(id) /\ nenv' = nenv + 1 /\ UNCHANGED mvars
 
 SendOK(i) ==
-  /\ pc[i] = "reg" /\ ~outClosed /\ pc' = [pc EXCEPT ![i] = "wait"] /\ OWire(i)
-  /\ UNCHANGED <<nenv, table, tok, closed, hpc>>
+  /\ pc[i] = "reg" /\ ~outClosed /\ OWire(i)
+  /\ IF "RegisterAfterSend" \in Dev        \* deviation: the entry is made only once the message has been sent
+     THEN pc' = [pc EXCEPT ![i] = "sent"] /\ UNCHANGED table
+     ELSE pc' = [pc EXCEPT ![i] = "wait"] /\ UNCHANGED table
+  /\ UNCHANGED <<nenv, tok, closed, hpc>>
+LateRegister(i) ==
+  /\ pc[i] = "sent" /\ pc' = [pc EXCEPT ![i] = "wait"] /\ table' = table \cup {i}
+  /\ UNCHANGED <<ovars, tok, closed, hpc>>
 SendFail(i) ==       \* the send failed: the registration is withdrawn (the pinned code leaked it)
   /\ pc[i] = "reg" /\ outClosed /\ pc' = [pc EXCEPT ![i] = "senderr"]
   /\ table' = IF "LeakOnSendError" \in Dev THEN table ELSE table \ {i}
@@ -179,7 +193,7 @@ Signal ==
           /\ UNCHANGED <<nenv, table, closed, pc>>
 
 LibNext ==
-  \/ \E i \in Reqs : SendOK(i) \/ SendFail(i) \/ Wake(i) \/ CtxWake(i) \/ Ret(i)
+  \/ \E i \in Reqs : SendOK(i) \/ SendFail(i) \/ LateRegister(i) \/ Wake(i) \/ CtxWake(i) \/ Ret(i)
   \/ LookupHit \/ LookupMiss \/ FinishMiss \/ Signal
 Next ==
   \/ /\ nenv < MaxEnv
